@@ -235,6 +235,52 @@ pub fn run(ctx: &mut Ctx) {
                 Err(p) => ctx.violation(&format!("opt/panic/{}", p.signature()), &format!("{:?}", p), replay()),
             }
         }
+        // copies of the same (digest-equal) envelope back to back: one with a recipient's sealed message
+        // elided, then the full one - what each key can open depends on the copy in hand, not on history
+        if listed.len() >= 2 {
+            let asr = y.assertions_with_predicate(known_values::HAS_RECIPIENT);
+            if asr.len() >= 2 {
+                ctx.eval();
+                ctx.count("digest_equal_copies_back_to_back");
+                let victim_a = asr[rng.below(asr.len())].clone();
+                let redacted = y.elide_removing_target(&victim_a.subject().as_object().unwrap());
+                let count = |x: &Envelope| trap::guard(|| x.recipients().map(|r| r.len()).unwrap_or(usize::MAX));
+                let n_red = count(&redacted);
+                let n_full = count(&y);
+                let n_red2 = count(&redacted);
+                if let (Ok(a), Ok(b), Ok(c)) = (&n_red, &n_full, &n_red2) {
+                    if *a != asr.len() - 1 || *b != asr.len() || *c != *a {
+                        ctx.violation("recipients/depends-on-history", &format!("recipients() gave {} / {} / {} sealed messages for redacted / full / redacted copies of an envelope with {}", a, b, c, asr.len()), jhex(&y));
+                    }
+                }
+                for k in &listed {
+                    let r1 = trap::guard(|| redacted.decrypt_subject_to_recipient(&k.sk).is_ok());
+                    let r2 = trap::guard(|| y.decrypt_subject_to_recipient(&k.sk).is_ok());
+                    if !matches!(r2, Ok(true)) {
+                        ctx.violation("listed/cannot-decrypt-after-redacted-copy", &format!("listed recipient ({}) cannot open the full envelope right after a redacted copy was examined", k.scheme), jhex(&y));
+                    }
+                    let _ = r1;
+                }
+            }
+        }
+        // a long recipient list now and then (every listed key still opens it)
+        if case % 600 == 7 {
+            let n_big = *rng.pick(&[65usize, 70, 130, 260]);
+            ctx.count("big_recipient_lists");
+            let keys: Vec<(EncapsulationPrivateKey, EncapsulationPublicKey)> = (0..n_big).map(|_| EncapsulationScheme::X25519.keypair()).collect();
+            let ck3 = SymmetricKey::new();
+            let mut big = e.encrypt_subject(&ck3).unwrap();
+            for (_, pk) in &keys {
+                big = big.add_recipient(pk, &ck3);
+            }
+            for (i, (sk, _)) in keys.iter().enumerate() {
+                ctx.eval();
+                if !matches!(trap::guard(|| big.decrypt_subject_to_recipient(sk).map(|d| d.subject().is_identical_to(&e.subject()))), Ok(Ok(true))) {
+                    ctx.violation("listed/cannot-decrypt-long-list", &format!("recipient #{} of {} cannot open the envelope", i, n_big), replay());
+                    break;
+                }
+            }
+        }
         // wrap-and-encrypt form
         let k = listed[0];
         ctx.eval();
